@@ -115,6 +115,8 @@ class Col:
             return self.scalar(t)
         op, a = t.op, t.args
         c = self.col
+        if op in ("getitem", "mod", "py_int", "floordiv") and not self.has_time(t):
+            return self.scalar(t)  # a count / index expression (n_steps - i % n_steps - 1): the same number in every column
         if op in ("unsqueeze", "squeeze", "expand", "expand_as", "to", "attr_values", "as_tensor", "clone", "contiguous", "broadcast_to"):
             return c(a[0], j)
         if op == "tensor":
